@@ -3,7 +3,7 @@ import numpy as np
 from .. import core, gen, detfam
 
 PROP_FILE = 'Knee/Props/C02.lean'
-PROP_FILES = ['Knee/Props/C02.lean', 'Knee/Props/C02D.lean']
+PROP_FILES = ['Knee/Props/C02.lean', 'Knee/Props/C02D.lean', 'Knee/Props/C02S.lean']
 RULE = ('multi_knee of the 5 detector modules x thresholds t1 (grid + endpoint-line SMAPE values of the input: exact ties) x t2 >= detector minimum on '
         'dyadic families, float64 curves and trace windows. Correspondence: stack loop + detector models fed with criterion oracles (never the detector\'s own '
         'knee()), exact. Predicate on the REAL result: strictly increasing, inside [0,n-2] ([1,n-2] except Menger), empty when n<=t2 or SMAPE<t1, and the '
